@@ -65,7 +65,10 @@ class Exec:
         self.inputs = {}                  # key -> Val (named symbolic inputs created on demand)
         self.input_constraints = []       # type-range constraints of Int-mode inputs
         self.calls = []                   # opaque calls: (callee, argv, result)
-        self.fresh = 0
+        # call / symbol numbering is unique across executor instances of one process, so that states carried from one
+        # segment run into another can never have their symbols captured by a fresh symbol of the same name
+        Exec._seq = getattr(Exec, '_seq', 0) + 1000
+        self.fresh = Exec._seq
         self.max_paths = max_paths
         self.npaths = 0
         self.call_records = {}
